@@ -60,9 +60,9 @@ CLAIMS = {
  "C17": ("Theorems for EVERY value whose numeric fields fit their Rust types: (tree level) dec(enc v) = v on the serde data model rendered as JSON trees — side, time-in-force (incl. externally tagged GTD), peg, ids, orders (seven kinds), order lists of any length, updates, transactions, transaction lists, match results, statistics (hand-written visitor), snapshots (strict visitor), level data, packages; (text level) reading back the compact text printed for any clean tree gives the tree (parseJson_render, by mutual structural induction, fuel bound proved), every encoder produces clean trees, hence dec(parse(print(enc v))) = v with exact integers (no float in between); a package validates after the trip exactly as before it. "
          "Modelled: that render/parseJson are what serde_json prints/reads — compared byte for byte and tree for tree on every run (E-json).",
          "Lean 4 proof (decoder/encoder round-trip over JSON trees + reader-inverts-printer over JSON text) + byte-for-byte differential correspondence", "DESIGN §6 C17, §11.3"),
- "C09": ("Theorems for EVERY package and every hash function: a restore succeeds iff the version equals the supported one (regenerated from the source) and the stored checksum equals the hash of the serialized content, through both constructor routes, and then yields exactly the packaged content (C09_decision, C09_json_route, C09_exact via C10); the serializer the checksum covers is injective on well-typed snapshots — price, aggregates, every field of every order, their number and sequence reach the bytes (C09_ser_injective, from the C17 text and tree round trips) — so an accepted package with different content under an unchanged checksum exhibits a hash collision (C09_tamper, C09_tamper_content). "
-         "Partial: rejection of every proper prefix concerns serde_json's reader and is decided by the run (every truncation point, every deletion, sampled/exhaustive substitutions and insertions, structural edits, pairs). Tie: E-snap/E-snapx/E-json; the crate's SHA-256 checksums equal the model's own SHA-256.",
-         "Lean 4 proof (decision theorem, serializer injectivity, collision reduction) + exhaustive/sampled fault-injection correspondence with Lean judge", "DESIGN §6 C09, §11.3"),
+ "C09": ("Theorems for EVERY package and every hash function: a restore succeeds iff the version equals the supported one (regenerated from the source) and the stored checksum equals the hash of the serialized content, through both constructor routes, and then yields exactly the packaged content (C09_decision, C09_json_route, C09_text_route, C09_exact via C10); the serializer the checksum covers is injective on well-typed snapshots — price, aggregates, every field of every order, their number and sequence reach the bytes (C09_ser_injective) — so an accepted package with different content under an unchanged checksum exhibits a hash collision (C09_tamper, C09_tamper_content); every proper prefix of the serialized text (a torn write at any offset) is rejected (C09_truncated: a proper prefix of a printed object is never a JSON document, by mutual induction with the cut falling anywhere). "
+         "Modelled: that render/parseJson are serde_json's printer/reader — compared on every run (every truncation point, every deletion, sampled/exhaustive substitutions and insertions, structural mutations of every node and all pairs at the top levels). Tie: E-snap/E-snapx/E-json; the crate's SHA-256 checksums equal the model's own SHA-256.",
+         "Lean 4 proof (decision theorem, serializer injectivity, collision reduction, truncation theorem) + exhaustive/sampled fault-injection correspondence with Lean judge", "DESIGN §6 C09, §11.3"),
 }
 PENDING = {
 }
